@@ -2,7 +2,9 @@
    and addr_book_gc.go (the repaired tree: deleteInPlace re-examines the
    element swapped into the freed slot; the certified record is dropped with the
    last address; a record changed by clean is always written through; record
-   addresses are compared as transport addresses).  No proofs here.
+   addresses are compared as transport addresses; setAddrs registers the entries
+   it creates in its address index, so a batch naming a new address twice
+   stores it once).  No proofs here.
 
    Layout kept from the code: one record per peer = list of entries (kept
    sorted by expiry whenever it is not dirty; clean() relies on that: it looks
@@ -145,13 +147,18 @@ Definition d_setaddrs (s : dbook) (p : Z) (addrs : list Z) (ttl : Z) (mode : ttl
   | _ =>
     let '(s1, pr, inc) := load s p true false in
     let newexp := unix (d_now s + ttl) in
-    let orig := daddrs pr in        (* addrsMap is built from the entries present before the loop *)
+    let orig := daddrs pr in        (* addrsMap starts from the entries present before the loop *)
     let '(cur, fresh) :=
       fold_left (fun (acc : list dent * list dent) a =>
                    let '(cur, fresh) := acc in
                    match find_de a orig with
                    | Some _ => (upd_existing mode a ttl newexp cur, fresh)
-                   | None => (cur, fresh ++ [mkD a ttl newexp])
+                   | None =>
+                       (* addrsMap also knows the entries created by this loop *)
+                       match find_de a fresh with
+                       | Some _ => (cur, upd_existing mode a ttl newexp fresh)
+                       | None => (cur, fresh ++ [mkD a ttl newexp])
+                       end
                    end)
                 addrs (orig, []) in
     let pr1 := mkDR p (cur ++ fresh) (dcert pr) true in
